@@ -92,6 +92,18 @@ def r_payload_complete(ctx):
         ctx.expect_min(1)
         return
     ctx.ok(inst, comp.loc(call), 'positions %s' % roles)
+    # the member component names every voter including the writer: the loader of *another* node removes itself, not the writer
+    inst = 'member component is voters + the writing node itself'
+    ctx.tick()
+    me = elts[roles['members']]
+    mdefs = [d for d in U.walk_no_nested(comp.node) if isinstance(d, ast.Assign) and any(isinstance(t, ast.Name) and t.id == me.id for t in d.targets)]
+    has_self = mdefs and all(any(P.self_attr(x, comp.self_name) == R.selfNode for x in ast.walk(d.value)) for d in mdefs)
+    if has_self:
+        ctx.ok(inst, comp.loc(mdefs[0]), unparse(mdefs[0].value))
+    else:
+        ctx.violation('%s:member-component-without-self' % comp.qualname, comp.loc(mdefs[0] if mdefs else call),
+                      'the member set stored in the snapshot (`%s`) does not contain the node that writes it: a follower installing the snapshot silently drops its leader from its '
+                      'member set (majorities are then computed over different sets)' % (unparse(mdefs[0].value) if mdefs else '?'), instance=inst)
     # the two entries are read at lastApplied-1, count 2
     fetch = [d for d in U.walk_no_nested(comp.node) if isinstance(d, ast.Assign) and any(isinstance(t, ast.Name) and t.id == entries_var for t in d.targets)]
     inst = 'snapshot position = (lastApplied - 1, lastApplied)'
@@ -162,7 +174,7 @@ def r_payload_complete(ctx):
         ctx.ok(inst, loader.loc(), '%s[%d]' % (dvar, roles['members']))
     else:
         ctx.violation('%s:members-source' % loader.qualname, loader.loc(), 'the loader never reads the member component %s[%d]' % (dvar, roles['members']), instance=inst)
-    ctx.expect_min(6)
+    ctx.expect_min(7)
 
 
 @rule('R-version-in-payload', 'the enabled code version travels with every snapshot: in the default modes it is part of the '
@@ -357,23 +369,63 @@ def r_dump_atomic(ctx):
             else:
                 ctx.violation('%s:tmp-dump-never-renamed' % m.qualname, m.loc(c), 'the temporary dump `%s` is never renamed onto the dump path atomically' % unparse(tt), instance=inst)
     ctx.require(n_w >= 2, 'dump writers not found')
-    # different writers (own compaction vs. incoming transfer) never share a temporary name
+    # different writers (own compaction vs. incoming transfer) never share a temporary name.  Names are compared after
+    # resolving locals and attributes that __init__ binds once (`self.__tmp = fileName + '.tmp'`)
+    sinit = S.methods.get('__init__')
+    fparam = None
+    if sinit is not None:
+        for st, k in U.assigns_to_attr(P, sinit, fname):
+            if isinstance(st.value, ast.Name):
+                fparam = st.value.id
+
+    def norm(m, e, depth=0):
+        if depth > 5:
+            return unparse(e)
+        if P.self_attr(e, m.self_name) == fname or (m is sinit and isinstance(e, ast.Name) and e.id == fparam):
+            return 'DUMP'
+        if isinstance(e, ast.Constant):
+            return repr(e.value)
+        if isinstance(e, ast.BinOp) and isinstance(e.op, ast.Add):
+            return norm(m, e.left, depth + 1) + '+' + norm(m, e.right, depth + 1)
+        if isinstance(e, ast.IfExp):
+            br = [x for x in (e.body, e.orelse) if not (isinstance(x, ast.Constant) and x.value is None)]
+            if len(br) == 1:
+                return norm(m, br[0], depth + 1)
+        if isinstance(e, ast.Name):
+            defs = [d for d in U.walk_no_nested(m.node) if isinstance(d, ast.Assign) and any(isinstance(t, ast.Name) and t.id == e.id for t in d.targets)]
+            if len(defs) == 1:
+                return norm(m, defs[0].value, depth + 1)
+        a_ = P.self_attr(e, m.self_name)
+        if a_ and sinit is not None:
+            ds = [st for st, k in U.assigns_to_attr(P, sinit, a_)]
+            others_ = [1 for g in P.methods_of(S) if g is not sinit for st, k in U.assigns_to_attr(P, g, a_)]
+            if len(ds) == 1 and not others_:
+                return norm(sinit, ds[0].value, depth + 1)
+        return unparse(e)
     tmp_names = {}
     for m in P.methods_of(S):
-        for d in U.walk_no_nested(m.node):
-            if isinstance(d, ast.Assign) and isinstance(d.value, ast.BinOp) and isinstance(d.value.op, ast.Add) and P.self_attr(d.value.left, m.self_name) == fname \
-                    and isinstance(d.value.right, ast.Constant):
-                tmp_names.setdefault(d.value.right.value, []).append((m, d))
+        for c in P.calls_in(m):
+            tgt = None
+            if isinstance(c.func, ast.Name) and c.func.id == 'open' and len(c.args) >= 2 and isinstance(c.args[1], ast.Constant) and any(ch in str(c.args[1].value) for ch in 'wa+'):
+                tgt = c.args[0]
+            elif isinstance(c.func, ast.Attribute) and P.self_attr(c.func, m.self_name) and len(c.args) == 2 and m.name == 'serialize':
+                tgt = c.args[0]
+            if tgt is not None:
+                k = norm(m, tgt)
+                if 'DUMP' in k:
+                    tmp_names.setdefault(k, []).append((m, c))
     inst = 'own dump and incoming transfer use different temporary files'
     ctx.tick()
     shared = [(k, v) for k, v in tmp_names.items() if len(set(m.name for m, d in v)) > 1]
     if shared:
         k, v = shared[0]
-        ctx.violation('Serializer:shared-temporary-dump-name', v[1][0].loc(v[1][1]),
-                      '%s and %s both write `<dump>%s`: a compaction between two chunks of an incoming snapshot renames the half-written transfer into place / the transfer scribbles '
-                      'into the fresh dump' % (v[0][0].qualname, v[1][0].qualname, k), instance=inst)
+        v = sorted(v, key=lambda x: x[0].name)
+        first, second = v[0], [x for x in v if x[0].name != v[0][0].name][0]
+        ctx.violation('Serializer:shared-temporary-dump-name', second[0].loc(second[1]),
+                      '%s and %s both write `%s`: a compaction between two chunks of an incoming snapshot renames the half-written transfer into place / the transfer scribbles '
+                      'into the fresh dump' % (first[0].qualname, second[0].qualname, k.replace('DUMP', '<dump>')), instance=inst)
     else:
-        ctx.ok(inst, '', 'suffixes %s' % sorted(tmp_names))
+        ctx.ok(inst, '', 'names %s' % sorted(x.replace('DUMP', '<dump>') for x in tmp_names))
     # nobody else opens conf.fullDumpFile for writing
     others = 0
     for f in P.all_funcs():
